@@ -284,8 +284,24 @@ def check_l7(ctx) -> None:
         return
     f = repo.function('geophires_monte_carlo/MC_GeoPHIRES3.py', 'check_and_replace_mean')
     rel = f.module.rel
-    tests = [n for n in ast.walk(f.node) if isinstance(n, ast.If) and any(isinstance(x, ast.Name) and x.id == 'vari_name' for x in ast.walk(n.test))]
-    ctx.require(len(tests) == 1, 'check_and_replace_mean: the line matcher on vari_name was not found (idiom changed)')
+    # the variable's name is the first field of the settings entry (`<entry>[0]`), whatever the local that holds it is called
+    p0 = f.args[0] if f.args else 'input_value'
+    name_locals = {st.targets[0].id for st in ast.walk(f.node) if isinstance(st, ast.Assign) and len(st.targets) == 1 and isinstance(st.targets[0], ast.Name)
+                   and norm(st.value) == f'{p0}[0]'}
+    tests = [n for n in ast.walk(f.node) if isinstance(n, ast.If) and
+             (any(isinstance(x, ast.Name) and x.id in name_locals for x in ast.walk(n.test)) or f'{p0}[0]' in norm(n.test))]
+    if not tests:
+        # the look-up may sit in a helper the name is handed to
+        for c in calls_in(f.node):
+            g = f.module.functions.get(dotted_name(c.func) or '')
+            if g is None:
+                continue
+            for i_, a_ in enumerate(c.args):
+                if (isinstance(a_, ast.Name) and a_.id in name_locals) or norm(a_) == f'{p0}[0]':
+                    if i_ < len(g.args):
+                        pn = g.args[i_]
+                        tests += [n for n in ast.walk(g.node) if isinstance(n, ast.If) and any(isinstance(x, ast.Name) and x.id == pn for x in ast.walk(n.test))]
+    ctx.require(len(tests) == 1, 'check_and_replace_mean: the line matcher on the variable name was not found (idiom changed)')
     t = tests[0].test
     txt = norm(t)
     anchored = (isinstance(t, ast.Call) and isinstance(t.func, ast.Attribute) and t.func.attr == 'startswith') or \
